@@ -136,6 +136,83 @@ theorem C08_ci (f : Char → Char) (p s s' : List Char) (h : s.map f = s'.map f)
 theorem C08_total (p s : List Char) : gmatchCS p s = true ∨ gmatchCS p s = false := by
   cases gmatchCS p s <;> simp
 
+/-- Concatenation, forwards: a string made of a part in the language of `p₁` followed by a part in the
+    language of `p₂` is in the language of `p₁ ++ p₂`. -/
+theorem Lang_append {p₁ p₂ : List Tok} {s₁ s₂ : List Char} (h₁ : Lang p₁ s₁) (h₂ : Lang p₂ s₂) :
+    Lang (p₁ ++ p₂) (s₁ ++ s₂) := by
+  induction h₁ with
+  | nil => simpa using h₂
+  | lit _ ih => exact Lang.lit ih
+  | any1 _ ih => exact Lang.any1 ih
+  | star r _ ih => rw [List.cons_append, List.append_assoc]; exact Lang.star r ih
+
+/-- Concatenation, backwards: every string in the language of `p₁ ++ p₂` splits that way. -/
+theorem Lang_split (p₁ p₂ : List Tok) (s : List Char) (h : Lang (p₁ ++ p₂) s) :
+    ∃ s₁ s₂, s = s₁ ++ s₂ ∧ Lang p₁ s₁ ∧ Lang p₂ s₂ := by
+  induction p₁ generalizing s with
+  | nil => exact ⟨[], s, rfl, Lang.nil, by simpa using h⟩
+  | cons t p₁ ih =>
+    rw [List.cons_append] at h
+    cases h with
+    | lit h =>
+      obtain ⟨a, b, rfl, ha, hb⟩ := ih _ h
+      exact ⟨_ :: a, b, rfl, Lang.lit ha, hb⟩
+    | any1 h =>
+      obtain ⟨a, b, rfl, ha, hb⟩ := ih _ h
+      exact ⟨_ :: a, b, rfl, Lang.any1 ha, hb⟩
+    | star r h =>
+      obtain ⟨a, b, rfl, ha, hb⟩ := ih _ h
+      exact ⟨r ++ a, b, by simp, Lang.star r ha, hb⟩
+
+/-- C08_concat: matching is compositional over the pattern text — a pattern `p₁ ++ p₂` matches exactly the
+    strings that split into a part matched by `p₁` and a part matched by `p₂`; nothing in one half
+    (a bracket, a brace, a backslash) can change how the other half is read. -/
+theorem C08_concat (p₁ p₂ : List Tok) (s : List Char) :
+    gmatch (p₁ ++ p₂) s = true ↔ ∃ s₁ s₂, s = s₁ ++ s₂ ∧ gmatch p₁ s₁ = true ∧ gmatch p₂ s₂ = true := by
+  simp only [C08_sound_complete]
+  constructor
+  · exact Lang_split p₁ p₂ s
+  · rintro ⟨s₁, s₂, rfl, h₁, h₂⟩; exact Lang_append h₁ h₂
+
+/-- C08_concat_text: the same over pattern text (`tok` is a `map`, so it distributes over `++`). -/
+theorem C08_concat_text (p₁ p₂ s : List Char) :
+    gmatchCS (p₁ ++ p₂) s = true ↔
+      ∃ s₁ s₂, s = s₁ ++ s₂ ∧ gmatchCS p₁ s₁ = true ∧ gmatchCS p₂ s₂ = true := by
+  unfold gmatchCS tok; rw [List.map_append]; exact C08_concat _ _ s
+
+/-- C08_prefix_star: a wildcard-free text followed by `*` (the shape of `s3:Get*` or `ec2:*`) matches exactly
+    the strings that start with that text. -/
+theorem C08_prefix_star (p s : List Char) (hp : ∀ c ∈ p, c ≠ '*' ∧ c ≠ '?') :
+    gmatchCS (p ++ ['*']) s = true ↔ p <+: s := by
+  rw [C08_concat_text]
+  constructor
+  · rintro ⟨s₁, s₂, rfl, h₁, _⟩
+    rw [C08_literal p s₁ hp] at h₁; subst h₁; exact List.prefix_append _ _
+  · rintro ⟨t, rfl⟩
+    exact ⟨p, t, rfl, (C08_literal p p hp).2 rfl, C08_star_all t⟩
+
+/-- C08_star_suffix: `*` followed by a wildcard-free text matches exactly the strings that end with it. -/
+theorem C08_star_suffix (p s : List Char) (hp : ∀ c ∈ p, c ≠ '*' ∧ c ≠ '?') :
+    gmatchCS ('*' :: p) s = true ↔ p <:+ s := by
+  have : gmatchCS ('*' :: p) s = gmatch (.star :: tok p) s := rfl
+  rw [this, C08_star]
+  constructor
+  · rintro ⟨s₁, s₂, rfl, h⟩
+    have := (C08_literal p s₂ hp).1 h; subst this; exact List.suffix_append _ _
+  · rintro ⟨t, rfl⟩
+    exact ⟨t, p, rfl, (C08_literal p p hp).2 rfl⟩
+
+/-- C08_star_star: a doubled `*` means what a single one does. -/
+theorem C08_star_star (p : List Tok) (s : List Char) :
+    gmatch (.star :: .star :: p) s = gmatch (.star :: p) s := by
+  rw [Bool.eq_iff_iff, C08_star, C08_star]
+  constructor
+  · rintro ⟨a, b, rfl, h⟩
+    obtain ⟨c, d, rfl, h'⟩ := (C08_star p b).1 h
+    exact ⟨a ++ c, d, by simp, h'⟩
+  · rintro ⟨a, b, rfl, h⟩
+    exact ⟨a, b, rfl, (C08_star p b).2 ⟨[], b, rfl, h⟩⟩
+
 -- Non-vacuity: concrete instances, including regular-expression metacharacters as literals.
 example : gmatchCS "a.c".toList "abc".toList = false := by decide
 example : gmatchCS "a.c".toList "a.c".toList = true := by decide
@@ -146,5 +223,8 @@ example : gmatchCS "s3:Get?bject*".toList "s3:GetObjectAcl".toList = true := by 
 example : gmatchCI "S3:getobject".toList "s3:GetObject".toList = true := by decide
 example : gmatchCS "S3:getobject".toList "s3:GetObject".toList = false := by decide
 example : ∀ c ∈ "a.c(+)[]{}|^$\\".toList, c ≠ '*' ∧ c ≠ '?' := by decide
+
+example : gmatchCS "s3:Get*".toList "s3:GetObject".toList = true ∧ "s3:Get".toList <+: "s3:GetObject".toList := by decide
+example : gmatchCS "*Object".toList "s3:GetObject".toList = true ∧ gmatchCS "**Object".toList "s3:GetObject".toList = true := by decide
 
 end PycfModel.Glob
